@@ -60,7 +60,7 @@ def histories(ctx, gens, root, stale):
     for pi, perm in enumerate(perms):
         steps = []
         if stale:
-            steps.append({"k": "write", "p": "$ROOT/out/shared.ts", "s": "STALE CONTENT\n\nexport type Old = never;\n" * 3})
+            steps.append({"k": "write", "p": "$ROOT/out/shared.ts", "s": "STALE CONTENT\n\nexport type Old = never;\n" * 200})     # much longer than anything written later: the first export must truncate
         else:
             steps.append({"k": "mkdir", "p": "$ROOT/out"})
         for j, i in enumerate(perm):
